@@ -158,7 +158,21 @@ def run(R):
         w = strip_refs(via[1])
         wty = sp0.ty(wlocs[0][0]) if not wlocs[0][1] else [f_['ty'] for f_ in tonic.adt(re.sub(r'<.*$', '', re.sub(r"^&('\w+ )?(mut )?", '', sp0.ty(wlocs[0][0]))))['variants'][0]['fields'] if f_['n'] == wlocs[0][1][-1]][0]
         okt = is_call(w, name='then') and ('graceful' in show(w[2][0]) or (is_call(strip_refs(w[2][0]), name='is_some') and 'signal' in show(w[2][0])))
-        R.check(okt, 'C13.R3', 'watcher=graceful.then(..)', site(si, c[0][0]), 'watcher argument = %s' % show(w)[:100])
+        # or spelled out: if graceful { Some(signal_rx.clone()) } else { None }
+        phi_form = False
+        if not okt and w and w[0] == 'phi':
+            alts = [strip_refs(a_) for a_ in w[1]] if isinstance(w[1], (list, tuple)) else []
+            somes = [a_ for a_ in alts if a_ and a_[0] == 'agg' and a_[1].get('variant') == 'Some']
+            nones = [a_ for a_ in alts if a_ and a_[0] == 'agg' and a_[1].get('variant') == 'None']
+            if len(somes) == 1 and len(nones) == 1 and len(alts) == 2:
+                pay = strip_refs(somes[0][2][0])
+                okpay = is_call(pay, name='clone') and 'watch::Receiver' in pay[1] + str(pay[4].get('self_ty')) + str(pay[4].get('resolved')) and term_contains(pay, lambda x: is_call(x, pat='watch::channel'))
+                sb = [bb_ for bb_, i_, p_, a_, ops_ in mirlib.aggregates(si, variant='Some') if show(strip_refs(si.origin(ops_[0]))) == show(pay)]
+                okg = bool(sb) and all(any(graceful_test(si, tm_) and (vals_ == ['else'] or 0 not in vals_) for s_, vals_, tm_ in si.edge_guards(bb_)) for bb_ in sb)
+                phi_form = bool(okpay and okg)
+        R.check(okt or phi_form, 'C13.R3', 'watcher=graceful.then(..)', site(si, c[0][0]), 'watcher argument = %s' % show(w)[:100])
+        if phi_form:
+            R.ok('C13.R3', 'closure-clones-receiver', site(si, c[0][0]), 'Some(signal_rx.clone()) on the graceful edge, None otherwise')
         if okt:
             clo = strip_refs(w[2][1])
             okc = False
